@@ -23,14 +23,31 @@ func caseGen() *rapid.Generator[Case] {
 		max = 24
 	}
 	sg := gen.ScriptGen(gen.ScriptOpts{
-		Item:      gen.BytesItem(gen.TokCSV),
+		Item:      mixed(),
 		MinOps:    1,
 		MaxOps:    max,
 		MaxCells:  4,
 		HeavyTail: 12,
 		Creators:  []string{"core", "core", "csv"},
 	})
-	return rapid.Custom(func(t *rapid.T) Case { return Case{Script: sg.Draw(t, "script")} })
+	return rapid.Custom(func(t *rapid.T) Case {
+		c := Case{Script: sg.Draw(t, "script")}
+		if rapid.IntRange(0, 3).Draw(t, "fault?") == 0 {
+			c.Fault = 1 + rapid.IntRange(0, 12).Draw(t, "fault")
+		}
+		return c
+	})
+}
+
+func mixed() *rapid.Generator[gen.Item] {
+	b := gen.BytesItem(gen.TokCSV)
+	a := gen.AnyItem(gen.TokCSV, 1)
+	return rapid.Custom(func(t *rapid.T) gen.Item {
+		if rapid.IntRange(0, 7).Draw(t, "any") == 0 {
+			return a.Draw(t, "any-item")
+		}
+		return b.Draw(t, "bytes-item")
+	})
 }
 
 func TestProp(t *testing.T) { prop.Rapid(t, caseGen()) }
